@@ -221,7 +221,14 @@ def _introspect_fun(
         # )
         ids: List[Tuple[CanonicalPath, PythonId]] = []
         for dep_path in dep_paths:
-            obj = ObjectRetrieval.retrieve_object_global(dep_path, gctx)
+            try:
+                obj = ObjectRetrieval.retrieve_object_global(dep_path, gctx)
+            except DDSException as e:
+                if e.error_code != DDSErrorCode.OBJECT_PATH_NOT_FOUND:
+                    raise
+                # The dependency recorded by an earlier evaluation in this process is gone (the function was
+                # deleted and its module imported again): what was recorded is out of date, nothing more.
+                obj = None
             ids.append((dep_path, PythonId(id(obj))))
         tup = tuple(ids)
         if (fun_path, arg_ctx_hash, tup) in _global_context.cached_fun_interactions:
